@@ -403,8 +403,8 @@ fn conv_expect(v: f64) -> Exp {
 }
 
 fn run_conv(val: Val, v: f64, text: &dyn Fn() -> String, ctx: &mut Ctx, seen: &mut Seen) {
-    for f in 0..4 {
-        let name = ["cint", "try_from", "divint-by-1", "and-minus-1"][f];
+    for f in 0..6 {
+        let name = ["cint", "try_from", "divint-by-1", "and-minus-1", "1-divint-by", "7-mod"][f];
         match ctx.begin_fast() {
             Step::Skip => continue,
             Step::Describe => {
@@ -413,14 +413,22 @@ fn run_conv(val: Val, v: f64, text: &dyn Fn() -> String, ctx: &mut Ctx, seen: &m
             }
             Step::Run => {}
         }
-        let exp = conv_expect(v);
+        // as a divisor: converted first, then the 16-bit rule (a divisor that floors to 0 is a division by zero)
+        let exp = match (f, conv_expect(v)) {
+            (4, Exp::Val(0)) | (5, Exp::Val(0)) => Exp::DivZero,
+            (4, Exp::Val(d)) => fit(1 / d as i64),
+            (5, Exp::Val(d)) => fit(7 % d as i64),
+            (_, e) => e,
+        };
         seen.set(outcome_index(exp));
         let val = val.clone();
         let got = classify(guard(|| match f {
             0 => Function::cint(val),
             1 => i16::try_from(val).map(Val::Integer),
             2 => Operation::divint(val, Val::Integer(1)),
-            _ => Operation::and(val, Val::Integer(-1)),
+            3 => Operation::and(val, Val::Integer(-1)),
+            4 => Operation::divint(Val::Integer(1), val),
+            _ => Operation::remainder(Val::Integer(7), val),
         }));
         if !agrees(exp, got) {
             ctx.violation_case(
@@ -671,7 +679,7 @@ impl Check for C08 {
     fn meta(&self, tier: Tier) -> Meta {
         Meta {
             bound: match tier {
-                Tier::Quick => "unary: all 65536 Integers x {negate, ABS, INT, FIX, CINT, SGN}; binary {+,-,*,\\,MOD,^}: every row and column through each of the boundary values (one operand exhaustive over all 65536); float->Integer: +-2000 ulp around each conversion limit in f32 and f64 and specials (NaN, inf) through CINT, TryFrom, \\ and AND; 15x15 boundary pairs x 6 operators through the whole interpreter, and FOR I%=a TO b STEP s .. NEXT for the same pairs x 10 steps (the counter update is an Integer addition)".into(),
+                Tier::Quick => "unary: all 65536 Integers x {negate, ABS, INT, FIX, CINT, SGN}; binary {+,-,*,\\,MOD,^}: every row and column through each of the boundary values (one operand exhaustive over all 65536); float->Integer: +-2000 ulp around each conversion limit in f32 and f64 and specials (NaN, inf) through CINT, TryFrom, \\ and AND, and as the divisor of \\ and MOD; 15x15 boundary pairs x 6 operators through the whole interpreter, and FOR I%=a TO b STEP s .. NEXT for the same pairs x 10 steps (the counter update is an Integer addition)".into(),
                 Tier::Thorough => "as quick, plus ALL 2^32 operand pairs for each of + - * \\ MOD, every base x exponents 0..20 for ^, ALL 2^32 f32 bit patterns through CINT, +-200000 ulp neighbourhoods, and all boundary pairs through the interpreter".into(),
             },
             rule: "cases are (operator, operand tuple); enumerated exhaustively in index order; distinct_nontrivial counts distinct (operator group, expected outcome) pairs where the outcome is the exact Integer result, OVERFLOW or DIVISION BY ZERO".into(),
